@@ -3,7 +3,7 @@
   c09.abs   {fmt: "osu"|"qua"|"sm"|"bms"|"o2j", …payload of the format's own denote op}
             → {"ok": {"charts": [AChart…], "valid": bool, "why": […], "info": {…}}} | {"err": class}
             AChart = {"hits": [[t, col]…], "holds": [[t, col, len]…], "bpms": [[t, bpm]…], "facts": {…}}
-  c09.close {eps, res: "ms" | [num, den] (beats), exact, shift, a: AChart, b: AChart} → {"ok": {close, hits, holds, bpms}}
+  c09.close {eps, res: "ms" | [f, g] (beats, each [num, den]), exact, shift, a: AChart, b: AChart} → {"ok": {close, hits, holds, bpms}}
 -/
 import Reamber.Util.Json
 import Reamber.Spec.Pipeline
@@ -106,6 +106,10 @@ def absQua (j : Json) : Except String Json := do
                          ("only_keysounds", Json.bool (!offending.isEmpty && offending.all (fun p => p.2 = "KeySounds"))),
                          ("allowed_without_keysounds", Json.bool (Qua.Spec.docAllowed (dropKs d))),
                          ("objs_declared", Json.bool (Qua.Spec.objsDeclared (dropKs d))),
+                         ("sv_zero", Json.bool ((d.sliderVelocities.getD []).any fun r =>
+                            match r.get "Multiplier" with
+                            | some v => (match Qua.numOf v with | .ok q => decide (q = 0) | .error _ => true)
+                            | none => false)),
                          ("sv_times", listToJson ratToJson svTimes)])
 
 def smKeys (ty : List Char) : Option Nat := SM.getKeys ty
@@ -184,7 +188,8 @@ def absO2J (j : Json) : Except String Json := do
 def resOf (j : Json) : Except String Res :=
   match j with
   | Json.str "ms" => .ok .ms
-  | _ => do .ok (.beat (← ratOf? j))
+  | Json.arr #[f, g] => do .ok (.beat (← ratOf? f) (← ratOf? g))
+  | _ => .error s!"resolution expected \"ms\" or [f, g]: {j}"
 
 def handle (op : String) (j : Json) : Except String Json := do
   match op with
@@ -206,7 +211,7 @@ def handle (op : String) (j : Json) : Except String Json := do
     let v := closeVerdict eps res exact shift a b
     .ok (okJson (obj [("close", Json.bool v.all), ("hits", Json.bool v.hits), ("holds", Json.bool v.holds),
                       ("bpms", Json.bool v.bpms),
-                      ("crowded", Json.bool (match res with | .ms => false | .beat _ => crowded res a)),
+                      ("crowded", Json.bool (match res with | .ms => false | .beat _ _ => crowded res a)),
                       ("norm_a", listToJson bpmJ (normBpms eps a.bpms)), ("norm_b", listToJson bpmJ (normBpms eps b.bpms))]))
   | "c09.facts" =>
     let a ← chartOf (← field j "a")
